@@ -4,7 +4,7 @@ From Coq Require Import Extraction ExtrOcamlBasic.
 From XV Require Import C06.Spec06 C06.Model06.
 Extraction Language OCaml.
 Extraction "../ocaml/C06/gen_c06.ml"
-  name_eqb sop_run map_spec inscope elem_ns attr_ns decl_legal has_dup sp_tag sp_decls sp_lookup_ns sp_is_default sp_prefixes
+  name_eqb spec_norm norm_raw sop_run map_spec inscope elem_ns attr_ns decl_legal has_dup sp_tag sp_decls sp_lookup_ns sp_is_default sp_prefixes
   stream_ok dyck bracket_of b_lookup_ns b_lookup_prefix b_is_default chain_rows
   parse_sax2 parse_sax1 parse_dom dom_nodes doc_lookup_ns doc_lookup_prefix doc_is_default
   m_lookup_ns m_lookup_prefix m_is_default scan_toks scan_init
